@@ -282,5 +282,12 @@ var pastCrashers = [][3]string{
 	{"s", "$a = 1; // c\r\n$b = 2;", "run"},
 	{"s", "if ($a > ) { echo 1; }", "run"},
 	{"s", "for 1 in $a { }\n", ""},
+	{"s", "try { echo 1; } catch (Exception $e - 1) { }\n", ""},
+	{"s", "$b = $a + ; echo 1;", "run"},
+	{"s", "<1", "run"},
+	{"s", "[,", "run"},
+	{"s", "switch ", "run"},
+	{"s", "$a = [\"a\": 1, \"b\": 2]; echo count($a);", "run"},
+	{"s", "$b = [$a, 'k' => [1, 'k' => $a]$e = 1;];", "run"},
 	{"s", "trait T { public $x = 1; public $x = 2; }\nclass A { use T; }\n", ""},
 }
